@@ -7,6 +7,6 @@ export GODEBUG=goindex=0
 export GONOSUMDB='*'
 export GONOSUMCHECK=1
 export GOFLAGS="-mod=mod"
-VERIF_ROOT=${VERIF_ROOT:-/verif}
+VERIF_ROOT=${VERIF_ROOT:-$(cd "$(dirname "${BASH_SOURCE[0]}")/.." && pwd)}
 REPO=${REPO:-/repo}
 export VERIF_ROOT REPO
